@@ -179,6 +179,12 @@ func c05StaticInput(r *core.Rand) ([]byte, []string) {
 		}
 	}
 	z := sgen.EncodeRaw(names, datas)
+	if len(names) > 0 && r.Chance(1, 6) {
+		// a well-formed archive whose header lies about one member (declared sizes, CRC, method)
+		k := core.Pick(r, sgen.LyingKinds)
+		z = sgen.EncodeLying(names, datas, r.Intn(len(names)), k)
+		kinds = append(kinds, "zip-header-lie:"+k)
+	}
 	if r.Chance(1, 8) {
 		var k string
 		z, k = mutateBytes(r, z)
